@@ -10,6 +10,9 @@
         open spec fn self_delimiting() -> bool { false }
         open spec fn dec_rel(b: Seq<u8>, v: &RequestForData, k: int) -> bool { true }
         open spec fn dec_total() -> bool { false }
+        /// the tag loop stops only at the end of the input, in front of something that is no tag, or in front of a tag that
+        /// is not one of this struct's non-repeatable fields
+        open spec fn dec_stop(rest: Seq<u8>) -> bool { rest.len() == 0 || (match <zvt_builder::encoding::Default as zvt_builder::encoding::Encoding<zvt_builder::Tag>>::spec_dec(rest) { None => true, Some((t, _)) => t.0 != 6u16 }) }
         /// the tag loop is specified by totality and frame clauses only
         open spec fn functional() -> bool { false }
         //@ fn exp:zvt | impl zvt_builder::encoding::Encoding<RequestForData> for zvt_builder::encoding::Default | encode | mod=feig::packets props=C03
@@ -22,6 +25,10 @@
         //@ tag tags.bookkeeping C13
                     actual_tags@ =~= seen,
                     required_tags@ =~= Set::<u16>::empty().difference(seen),
+        //@ tag tags.stop C13
+                    curr_len == bytes@.len() ==> <zvt_builder::encoding::Default as zvt_builder::encoding::Encoding<RequestForData>>::dec_stop(bytes@),
+                ensures
+                    <zvt_builder::encoding::Default as zvt_builder::encoding::Encoding<RequestForData>>::dec_stop(bytes@),
         //@ tag tags.loop.decreases C02
                 decreases bytes@.len() + (if curr_len != bytes@.len() { 1nat } else { 0nat }),
         //@ entry
@@ -75,6 +82,9 @@
         open spec fn self_delimiting() -> bool { false }
         open spec fn dec_rel(b: Seq<u8>, v: &CVendFunctionsEnhancedSystemInformationCompletion, k: int) -> bool { true }
         open spec fn dec_total() -> bool { false }
+        /// the tag loop stops only at the end of the input, in front of something that is no tag, or in front of a tag that
+        /// is not one of this struct's non-repeatable fields
+        open spec fn dec_stop(rest: Seq<u8>) -> bool { rest.len() == 0 || (match <zvt_builder::encoding::Default as zvt_builder::encoding::Encoding<zvt_builder::Tag>>::spec_dec(rest) { None => true, Some((t, _)) => true }) }
         /// the tag loop is specified by totality and frame clauses only
         open spec fn functional() -> bool { false }
         //@ fn exp:zvt | impl zvt_builder::encoding::Encoding<CVendFunctionsEnhancedSystemInformationCompletion> for zvt_builder::encoding::Default | encode | mod=feig::packets props=C03
@@ -87,6 +97,10 @@
         //@ tag tags.bookkeeping C13
                     actual_tags@ =~= seen,
                     required_tags@ =~= Set::<u16>::empty().difference(seen),
+        //@ tag tags.stop C13
+                    curr_len == bytes@.len() ==> <zvt_builder::encoding::Default as zvt_builder::encoding::Encoding<CVendFunctionsEnhancedSystemInformationCompletion>>::dec_stop(bytes@),
+                ensures
+                    <zvt_builder::encoding::Default as zvt_builder::encoding::Encoding<CVendFunctionsEnhancedSystemInformationCompletion>>::dec_stop(bytes@),
         //@ tag tags.loop.decreases C02
                 decreases bytes@.len() + (if curr_len != bytes@.len() { 1nat } else { 0nat }),
         //@ entry
@@ -134,6 +148,9 @@
         open spec fn self_delimiting() -> bool { false }
         open spec fn dec_rel(b: Seq<u8>, v: &WriteFile, k: int) -> bool { true }
         open spec fn dec_total() -> bool { false }
+        /// the tag loop stops only at the end of the input, in front of something that is no tag, or in front of a tag that
+        /// is not one of this struct's non-repeatable fields
+        open spec fn dec_stop(rest: Seq<u8>) -> bool { rest.len() == 0 || (match <zvt_builder::encoding::Default as zvt_builder::encoding::Encoding<zvt_builder::Tag>>::spec_dec(rest) { None => true, Some((t, _)) => t.0 != 6u16 }) }
         /// the tag loop is specified by totality and frame clauses only
         open spec fn functional() -> bool { false }
         //@ fn exp:zvt | impl zvt_builder::encoding::Encoding<WriteFile> for zvt_builder::encoding::Default | encode | mod=feig::packets props=C03
@@ -146,6 +163,10 @@
         //@ tag tags.bookkeeping C13
                     actual_tags@ =~= seen,
                     required_tags@ =~= Set::<u16>::empty().difference(seen),
+        //@ tag tags.stop C13
+                    curr_len == bytes@.len() ==> <zvt_builder::encoding::Default as zvt_builder::encoding::Encoding<WriteFile>>::dec_stop(bytes@),
+                ensures
+                    <zvt_builder::encoding::Default as zvt_builder::encoding::Encoding<WriteFile>>::dec_stop(bytes@),
         //@ tag tags.loop.decreases C02
                 decreases bytes@.len() + (if curr_len != bytes@.len() { 1nat } else { 0nat }),
         //@ entry
@@ -199,6 +220,9 @@
         open spec fn self_delimiting() -> bool { false }
         open spec fn dec_rel(b: Seq<u8>, v: &ChangeConfiguration, k: int) -> bool { true }
         open spec fn dec_total() -> bool { false }
+        /// the tag loop stops only at the end of the input, in front of something that is no tag, or in front of a tag that
+        /// is not one of this struct's non-repeatable fields
+        open spec fn dec_stop(rest: Seq<u8>) -> bool { rest.len() == 0 || (match <zvt_builder::encoding::Default as zvt_builder::encoding::Encoding<zvt_builder::Tag>>::spec_dec(rest) { None => true, Some((t, _)) => t.0 != 6u16 }) }
         /// the tag loop is specified by totality and frame clauses only
         open spec fn functional() -> bool { false }
         //@ fn exp:zvt | impl zvt_builder::encoding::Encoding<ChangeConfiguration> for zvt_builder::encoding::Default | encode | mod=feig::packets props=C03
@@ -211,6 +235,10 @@
         //@ tag tags.bookkeeping C13
                     actual_tags@ =~= seen,
                     required_tags@ =~= set![6u16].difference(seen),
+        //@ tag tags.stop C13
+                    curr_len == bytes@.len() ==> <zvt_builder::encoding::Default as zvt_builder::encoding::Encoding<ChangeConfiguration>>::dec_stop(bytes@),
+                ensures
+                    <zvt_builder::encoding::Default as zvt_builder::encoding::Encoding<ChangeConfiguration>>::dec_stop(bytes@),
         //@ tag tags.loop.decreases C02
                 decreases bytes@.len() + (if curr_len != bytes@.len() { 1nat } else { 0nat }),
         //@ entry
@@ -264,6 +292,9 @@
         open spec fn self_delimiting() -> bool { false }
         open spec fn dec_rel(b: Seq<u8>, v: &CVendFunctions, k: int) -> bool { true }
         open spec fn dec_total() -> bool { false }
+        /// the tag loop stops only at the end of the input, in front of something that is no tag, or in front of a tag that
+        /// is not one of this struct's non-repeatable fields
+        open spec fn dec_stop(rest: Seq<u8>) -> bool { rest.len() == 0 || (match <zvt_builder::encoding::Default as zvt_builder::encoding::Encoding<zvt_builder::Tag>>::spec_dec(rest) { None => true, Some((t, _)) => true }) }
         /// the tag loop is specified by totality and frame clauses only
         open spec fn functional() -> bool { false }
         //@ fn exp:zvt | impl zvt_builder::encoding::Encoding<CVendFunctions> for zvt_builder::encoding::Default | encode | mod=feig::packets props=C03
@@ -276,6 +307,10 @@
         //@ tag tags.bookkeeping C13
                     actual_tags@ =~= seen,
                     required_tags@ =~= Set::<u16>::empty().difference(seen),
+        //@ tag tags.stop C13
+                    curr_len == bytes@.len() ==> <zvt_builder::encoding::Default as zvt_builder::encoding::Encoding<CVendFunctions>>::dec_stop(bytes@),
+                ensures
+                    <zvt_builder::encoding::Default as zvt_builder::encoding::Encoding<CVendFunctions>>::dec_stop(bytes@),
         //@ tag tags.loop.decreases C02
                 decreases bytes@.len() + (if curr_len != bytes@.len() { 1nat } else { 0nat }),
         //@ entry
@@ -323,6 +358,9 @@
         open spec fn self_delimiting() -> bool { false }
         open spec fn dec_rel(b: Seq<u8>, v: &WriteData, k: int) -> bool { true }
         open spec fn dec_total() -> bool { false }
+        /// the tag loop stops only at the end of the input, in front of something that is no tag, or in front of a tag that
+        /// is not one of this struct's non-repeatable fields
+        open spec fn dec_stop(rest: Seq<u8>) -> bool { rest.len() == 0 || (match <zvt_builder::encoding::Default as zvt_builder::encoding::Encoding<zvt_builder::Tag>>::spec_dec(rest) { None => true, Some((t, _)) => t.0 != 6u16 }) }
         /// the tag loop is specified by totality and frame clauses only
         open spec fn functional() -> bool { false }
         //@ fn exp:zvt | impl zvt_builder::encoding::Encoding<WriteData> for zvt_builder::encoding::Default | encode | mod=feig::packets props=C03
@@ -335,6 +373,10 @@
         //@ tag tags.bookkeeping C13
                     actual_tags@ =~= seen,
                     required_tags@ =~= Set::<u16>::empty().difference(seen),
+        //@ tag tags.stop C13
+                    curr_len == bytes@.len() ==> <zvt_builder::encoding::Default as zvt_builder::encoding::Encoding<WriteData>>::dec_stop(bytes@),
+                ensures
+                    <zvt_builder::encoding::Default as zvt_builder::encoding::Encoding<WriteData>>::dec_stop(bytes@),
         //@ tag tags.loop.decreases C02
                 decreases bytes@.len() + (if curr_len != bytes@.len() { 1nat } else { 0nat }),
         //@ entry
